@@ -12,6 +12,7 @@ RULE = ("bounded-exhaustive enumeration over a structured value set: integers +-
         "rationals p/q and as mpf values with precisions 64/128/256; every compare function on ALL ordered pairs of a mixed subset (total order "
         "consistency) and every set/get/fits function on every value. Oracle: exact Fraction arithmetic, truncation toward zero by integer "
         "masking. distinct_nontrivial = distinct (function, operand classes, result) tuples.")
+RULE = RULE + (" " + "Later additions: tiny and padded mpf representations; results of mpz_get_d beyond the double range must be numbers of the operand's sign not below DBL_MAX.")
 ASSUMPTIONS = ["Fraction(double) is exact; Python int/Fraction comparison is the reference order",
                "results the manual calls system dependent or undefined (get_d beyond DBL_MAX or in the subnormal range, get_si/get_ui of mpf values that do not fit, NaN) are not asserted"]
 BUDGET = {"quick": 300, "thorough": 1800}
